@@ -65,6 +65,9 @@ def shapes(tier):
     out.append([s1.seg([grp, [A, 'full', 4, 2], [B, 'full', 10, 2]], 2, inter=True), s1.seg([[A, 'full', 4, 1], [B, 'full', 10, 1]], 1, inter=True)])
     # empty string and empty timestamp channels
     out.append([s1.seg([root, [A, 'full', 0x20, 0], [B, 'full', 0x44, 0], [C, 'full', 3, 2]], 1)])
+    # non-ASCII string data (byte length != character count) with more objects written after it in the copy
+    out.append([s1.seg([root, [A, 'full', 0x20, 2, [], [['é°µ', '日本語テキスト'], ['a°b', 'µµµµµµµµµµµx']]], [B, 'full', 3, 2], [C, 'full', 10, 1]], 2),
+                s1.seg([[A, 'full', 0x20, 1, [], [['ΩΩΩΩΩΩΩΩΩΩΩΩ']]], [B, 'full', 3, 1]], 1)])
     # every fixed-width type once
     for t in (1, 2, 5, 6, 7, 8, 9, 0x19, 0x1A, 0x08000c, 0x10000d):
         out.append([s1.seg([[A, 'full', t, 2, [SYM_PROPS[0]]], [B, 'full', 3, 1]], 1), s1.seg([[A, 'full', t, 1]], 2)])
